@@ -293,7 +293,8 @@ def run_harness_guarded(binary, lines, batch_timeout=60, line_timeout=6):
     if not lines:
         return []
     inp = "\n".join(lines) + "\n"
-    rc, out, err, dt = sh([binary], timeout=batch_timeout if len(lines) > 1 else line_timeout, inp=inp)
+    env = dict(ENV); env["RDH_TIMEOUT_MS"] = str(int(line_timeout * 1000))      # the harness prints HANG for a command that does not return
+    rc, out, err, dt = sh([binary], timeout=(batch_timeout if len(lines) > 1 else line_timeout + 5), inp=inp, env=env)
     if rc == 0:
         res = out.split("\n")
         if res and res[-1] == "":
